@@ -5,7 +5,7 @@ from harness.coqcases import run_bool_cases
 from harness.flatten import coq_q
 from harness.props._common import run_eval, replay_eval
 
-PROPS_FILES = ["P_C07", "P_C07mx"]
+PROPS_FILES = ["P_C07", "P_C07mx", "P_C07r"]
 PROPS_FILE = "P_C07"
 GEN_FILES = ["Gen_rank"]
 COQ_TARGETS = ["CaseLib"]
@@ -71,7 +71,7 @@ def replay(ctx, case):
 
 
 MANIFEST = dict(
-    text='Proof: the rank used by low-rank preparation (rank logic regenerated from the source every run) is the least power of two >= min(r, effective rank) (C07_rank_spec); the overlap of a state with its Schmidt truncation is the sum of the kept squared coefficients for orthonormal factors (C07_overlap_truncated, any field). Tie: translator + execution against low_rank_approximation; direct evaluation of prepared state and fidelity for every bipartition and rank. Optimality (Eckart-Young) is a property of the SVD and is not proved.',
-    note='Modelled, not verified: np.linalg.svd contract; Eckart-Young optimality.',
+    text='Proof: the rank used by low-rank preparation (rank logic regenerated from the source every run) is the least power of two >= min(r, effective rank) (C07_rank_spec); the overlap of a state with its Schmidt truncation is the sum of the kept squared coefficients for orthonormal factors (C07_overlap_truncated, any field). Tie: translator + execution against low_rank_approximation; direct evaluation of prepared state and fidelity for every bipartition and rank. Optimality clause: only its arithmetic core is proved (C07_optimal_truncation_partial: weights in [0,1] summing to at most k cannot beat the k largest squared coefficients); the Hilbert-space step (Cauchy-Schwarz and Bessel) producing those weights is not formalised.',
+    note='Modelled, not verified: np.linalg.svd contract; the Cauchy-Schwarz/Bessel step of the optimality clause.',
     technique='Coq proof (N.log2_up; mathcomp trace algebra) + translator-regenerated rank logic + numpy evaluation',
     design_ref='DESIGN.md section 4, C07')
